@@ -249,6 +249,10 @@ func (p *Parser) led(tokenType tokType, node ASTNode) (ASTNode, error) {
 		right, err := p.parseExpression(bindingPowers[tAnd])
 		return ASTNode{nodeType: ASTAndExpression, children: []ASTNode{node, right}}, err
 	case tLparen:
+		// Only an unquoted identifier directly followed by "(" names a function.
+		if node.nodeType != ASTField || p.tokens[p.index-2].tokenType != tUnquotedIdentifier {
+			return ASTNode{}, p.syntaxErrorToken("Invalid function call: expected a function name before tLparen", p.tokens[p.index-1])
+		}
 		name := node.value
 		var args []ASTNode
 		for p.current() != tRparen {
